@@ -498,6 +498,7 @@ async fn handle_head_get(
                 .follow(FollowOption::On)
                 .tail(true)
                 .maybe_last_id(current_head.as_ref().map(|f| f.id))
+                .context_id(context_id)
                 .build(),
         )
         .await;
